@@ -10,6 +10,7 @@
 #include <sstream>
 
 #include "oomd/Log.h"
+#include "oomd/Stats.h"
 #include "oomd/PluginRegistry.h"
 #include "oomd/config/ConfigCompiler.h"
 #include "oomd/config/JsonConfigParser.h"
@@ -276,6 +277,106 @@ static Json::Value answer(const Json::Value& q) {
       g.buf.clear();
     }
     out["after"] = tick_ids(*engine, ctx);
+  } else if (kind == "dropin_seq") {
+    // DropInServiceAdaptor level: a sequence of add/remove operations, one main-loop tick after each
+    Oomd::Config2::JsonConfigParser parser;
+    auto base = parser.parse(q["base"].asString());
+    std::string fs = g.root + "/cg";
+    for (const auto& pr : q["probes"]) {
+      mkdirs(fs + "/" + pr.asString());
+    }
+    Oomd::PluginConstructionContext cc(fs);
+    auto engine = Oomd::Config2::compile(*base, cc);
+    if (!engine) {
+      out["err"] = "base config does not compile";
+      return out;
+    }
+    Oomd::OomdContext ctx;
+    ctx.setPrekillHooksHandler([&](const Oomd::CgroupContext& c) { return engine->firePrekillHook(c, ctx); });
+    QAdaptor ad(fs, *base, *engine);
+    Oomd::setStat("oomd.dropin.added", 0);
+    Json::Value steps(Json::arrayValue);
+    auto snapshot = [&](Json::Value& st) {
+      st["tick"] = tick_ids(*engine, ctx);
+      Json::Value hooks(Json::objectValue);
+      for (const auto& pr : q["probes"]) {
+        size_t ev0;
+        {
+          std::lock_guard<std::mutex> l(g.mu);
+          ev0 = g.buf.size();
+        }
+        std::string fired = "";
+        if (auto c = ctx.addToCacheAndGet(Oomd::CgroupPath(fs, pr.asString()))) {
+          auto inv = ctx.firePrekillHook(c->get());
+          std::lock_guard<std::mutex> l(g.mu);
+          std::string evs = g.buf.substr(ev0);
+          auto pos = evs.find("\"m\":\"fire\"");
+          if (pos != std::string::npos) {
+            auto line_start = evs.rfind('\n', pos);
+            std::string line = evs.substr(line_start == std::string::npos ? 0 : line_start + 1);
+            line = line.substr(0, line.find('\n'));
+            Json::Value e;
+            std::string errs;
+            std::istringstream ls(line);
+            Json::CharReaderBuilder rb;
+            if (Json::parseFromStream(rb, ls, &e, &errs)) {
+              fired = e["id"].asString();
+            }
+          }
+        } else {
+          fired = "<no-context>";
+        }
+        {
+          std::lock_guard<std::mutex> l(g.mu);
+          g.buf.erase(ev0);
+        }
+        hooks[pr.asString()] = fired;
+      }
+      st["hooks"] = hooks;
+      auto stats = Oomd::getStats();
+      st["added"] = stats.count("oomd.dropin.added") ? stats["oomd.dropin.added"] : -999;
+    };
+    {
+      Json::Value st;
+      snapshot(st);
+      steps.append(st);
+    }
+    for (const auto& op : q["ops"]) {
+      Json::Value st;
+      ad.results.clear();
+      if (op["op"].asString() == "add") {
+        std::unique_ptr<Oomd::Config2::IR::Root> dr;
+        try {
+          dr = parser.parse(op["text"].asString());
+        } catch (const std::exception& e) {
+          st["sched"] = "parse-rejected";
+        }
+        if (dr) {
+          try {
+            st["sched"] = ad.scheduleDropInAdd(op["tag"].asString(), *dr);
+          } catch (const std::exception& e) {
+            st["sched"] = std::string("exception:") + demangle(typeid(e).name());
+          }
+        }
+      } else {
+        ad.scheduleDropInRemove(op["tag"].asString());
+        st["sched"] = true;
+      }
+      ad.updateDropIns();
+      Json::Value rs(Json::arrayValue);
+      for (auto& r : ad.results) {
+        rs.append(r.first + (r.second ? ":ok" : ":fail"));
+      }
+      st["apply"] = rs;
+      {
+        std::lock_guard<std::mutex> l(g.mu);
+        g.buf.clear();
+      }
+      ctx.refresh();
+      snapshot(st);
+      steps.append(st);
+    }
+    out["steps"] = steps;
   } else {
     out["err"] = "unknown query";
   }
@@ -297,6 +398,9 @@ static int drv_q(int argc, char** argv) {
   setenv("INLINE_LOGGING", "1", 1);
   // oomd logs to stderr; keep it out of the way but available for crash reports
   Oomd::Log::init("/dev/null");
+  g.root = "/dev/shm/vq." + std::to_string(getpid());
+  mkdirs(g.root + "/cg");
+  Oomd::Stats::init(g.root + "/stats.sock");
   g.armed = true; // record plugin init events and throw sites; no scratch root => no redirection
   std::ifstream in(argv[0]);
   FILE* out = fopen(outpath.c_str(), "w");
@@ -332,7 +436,12 @@ static int drv_q(int argc, char** argv) {
     fflush(out);
   }
   fclose(out);
-  return 0;
+  {
+    Bypass b;
+    rmtree(g.root);
+  }
+  fflush(nullptr);
+  _exit(0); // skip static destructors (~Stats talks to its own socket)
 }
 VH_DRIVER(q, drv_q);
 
